@@ -257,6 +257,9 @@ def case_list(ctx):
         ("iupac_fb", dict(kind="iupac", samples=4, chroms=2, len=1200, single=False), dict(k=11, seg=100, mm=15, fallback=0.2), 1, 0, {}, None),
         ("sync_per_sample", dict(kind="basic", samples=3, chroms=2, len=600, single=False), dict(k=11, seg=100, mm=15), 2, 0,
          {"RAGC_SYNC_PER_SAMPLE": "1"}, None),
+        # ~100 kB archive with a ~230-byte directory: the truncation by one byte reads as a plausible directory length, so the
+        # reader parses part bytes as a directory (a garbage varint length byte 0xFF overflowed a u8 addition in read_varint: D14)
+        ("mid2", dict(kind="basic", samples=2, chroms=1, len=420000, single=False), dict(k=21, seg=1000000, mm=20), 2, 0, {}, 1500),
     ]
     if not q:
         L += [
